@@ -4106,6 +4106,14 @@ func (a *Association) getDataPacketsToRetransmit(budgetScaled *int64, consumed *
 			continue
 		}
 
+		if chunkPayload.abandoned() {
+			// Marked for retransmission before its message was abandoned (by the
+			// retransmission of another fragment): it must not go out any more.
+			chunkPayload.retransmit = false
+
+			continue
+		}
+
 		if i == 0 && int(a.RWND()) < len(chunkPayload.userData) {
 			// allow as zero window probe
 		} else if bytesToSend+len(chunkPayload.userData) > int(awnd) {
